@@ -14,11 +14,22 @@
 (***************************************************************************)
 EXTENDS Naturals, Integers
 
-CONSTANTS MaxDg,     \* largest datagram the server emits (abstract units)
-          MaxRx,     \* bound on bytes an unvalidated client sends in the model
-          Sizes      \* datagram sizes the client may send
+\* (the @type comments are for Apalache, which proves AntiAmpInd!IndInv inductive for every constant)
+CONSTANTS
+  \* @type: Int;
+  MaxDg,     \* largest datagram the server emits (abstract units)
+  \* @type: Int;
+  MaxRx,     \* bound on bytes an unvalidated client sends in the model
+  \* @type: Set(Int);
+  Sizes      \* datagram sizes the client may send
 
-VARIABLES rx, tx, validated
+VARIABLES
+  \* @type: Int;
+  rx,
+  \* @type: Int;
+  tx,
+  \* @type: Bool;
+  validated
 
 avars == <<rx, tx, validated>>
 
